@@ -30,7 +30,7 @@ func init() {
 			"sampling: a clean batch is evidence, not proof",
 		},
 		Engines:    []string{"INLINE (ample buffer, late inspection)", "BUBBLE (testing/synctest; scheduler = consumer)"},
-		FaultKinds: []string{"get_error (by name)", "op_error (by operator+arguments)", "unavailable", "chan_capacity", "consumer_delay", "consumer_retain", "consumer_write"},
+		FaultKinds: []string{"get_error (by name)", "op_error (by operator+arguments)", "unavailable", "chan_capacity", "consumer_delay", "consumer_retain", "consumer_write", "abort (a callback panics mid-evaluation)"},
 	}
 }
 
@@ -76,6 +76,13 @@ func (propC12) Gen(r *Rng, tier string) *World {
 		}
 	}
 	p.CtxDone = r.P(0.2)
+	aborts := false
+	if r.P(0.08) {
+		// a callback (fetcher or user operator) panics in the middle of the
+		// evaluation: observed or not, the panic reaches the caller of Eval
+		p.AbortAt = 1 + r.Intn(6)
+		aborts = true
+	}
 	w.Calls = []Plan{p}
 	// further calls on the same Expr, with other bindings: events of earlier
 	// calls are retained while later calls run
@@ -98,6 +105,10 @@ func (propC12) Gen(r *Rng, tier string) *World {
 		if r.P(0.3) {
 			q.FailOps = p.FailOps
 		}
+		if r.P(0.04) {
+			q.AbortAt = 1 + r.Intn(6)
+			aborts = true
+		}
 		w.Calls = append(w.Calls, q)
 	}
 	w.ChCap = []int{0, 0, 1, 2, 3, 8, -1}[r.Intn(7)] // -1 = ample
@@ -105,7 +116,7 @@ func (propC12) Gen(r *Rng, tier string) *World {
 	if len(w.Calls) > 1 && r.P(0.5) {
 		w.Extra["swap_chan"] = "1"
 	}
-	if r.P(0.4) {
+	if r.P(0.4) && !aborts {
 		w.Extra["bubble"] = "1"
 		w.Extra["sched_seed"] = strconv.FormatUint(r.U64(), 10)
 		w.Extra["p_recv"] = []string{"0.1", "0.5", "0.9"}[r.Intn(3)]
@@ -350,7 +361,7 @@ func (pr propC12) Run(w *World, st *Stats) *Violation {
 		recs[i] = r
 		r.base = c0.Run(ops, p, "eval")
 		st.Evals++
-		if r.base.Panic != nil {
+		if r.base.Panic != nil && !r.base.Abort {
 			return viol(only(i), "panic", "%s without events panicked: %v\n%s", p.Kind, r.base.Panic, r.base.Stack)
 		}
 		if w.Extra["swap_chan"] == "1" {
@@ -367,6 +378,19 @@ func (pr propC12) Run(w *World, st *Stats) *Violation {
 		st.Steps += int64(r.out.Env.N)
 		st.AddFaults(r.out.Env.Fired)
 		st.Path(pathHash(&r.out))
+		if r.base.Abort != r.out.Abort {
+			return viol(only(i), "result-changed", "a callback panics during call %d (%s): without events the call ends in %s, with %s it ends in %s %s (err %v) — observing must not change what the caller sees", i, p.Kind, r.base.Class(), w.Cfg.Event, r.out.Class(), ValStr(r.out.Val), r.out.Err)
+		}
+		if r.out.Abort {
+			// killed half-way: what was reported up to then is retained like any
+			// other event (and must stay intact); nothing else is demanded of it
+			st.Faults["abort"]++
+			r.kept = r.out.Events
+			for _, ev := range r.kept {
+				r.copies = append(r.copies, deepCopyEvent(ev))
+			}
+			continue
+		}
 		if r.out.Panic != nil {
 			return viol(only(i), "panic", "%s with events panicked: %v\n%s", p.Kind, r.out.Panic, r.out.Stack)
 		}
@@ -415,7 +439,7 @@ func (pr propC12) Run(w *World, st *Stats) *Violation {
 		}
 	}
 	st.Faults["consumer_write"]++
-	if n := len(recs); n > 0 && w.Extra["swap_chan"] != "1" {
+	if n := len(recs); n > 0 && w.Extra["swap_chan"] != "1" && !recs[n-1].base.Abort {
 		r := recs[n-1]
 		again := c.Run(ops, r.p, "eval")
 		st.Evals++
